@@ -44,7 +44,7 @@ class Gen:
         r = self.r
         k = r.random()
         if self.small_ints or k < 0.6:
-            return r.randint(-6, 12)
+            return r.randint(-6, 12) if r.random() < 0.93 else r.choice([63, 64, 65, 70, 100, 101, 127, 128, 255, 256, 1000])
         if k < 0.8:
             return r.choice(I_POOL)
         return r.randint(MININT, MAXINT)
@@ -147,6 +147,8 @@ class Gen:
         for _ in range(r.randint(0, 3)):
             s["bind"][self.name()] = self.item(r.randint(1, 3))
         s["quote"] = r.random() < 0.1
+        if r.random() < 0.5:   # rotated ring positions (invisible in the abstract state)
+            s["rot"] = {"input": r.randint(0, 12), "output": r.randint(0, 4), "graph": r.choice([0, 0, 1, 99, 100, 150])}
         if r.random() < 0.3:
             lo = r.randint(-20, 20)
             s["cfg"]["min_i"], s["cfg"]["max_i"] = lo, lo + r.randint(1, 30)
